@@ -20,6 +20,19 @@ CLAIMS = {
          "set_timeout/timeout round trip incl. u64 clamp; parser soundness; cut-off exactly at the deadline; end-to-end outcome table; "
          "tied by differential runs of try_parse_timeout/duration_to_timeout on grammar-generated strings and of both Timeout layers under a paused tokio clock.",
          "tokio timer behaviour is trusted; equality of handler duration and deadline is left unspecified."),
+ "C20": ("Coq theorems: the wrapped service is invoked iff the authorizer accepts, a refusal is exactly the authorizer's response, the allow-list authorizer is exact "
+         "(listed -> invoke, unlisted -> 404, no sender -> 500), any history of calls decomposes into independent calls; tied by differential runs of the real "
+         "RequireAuthorization layer with AllowedPeers and closure authorizers, sequentially and from up to 8 threads through clones.",
+         "Authorizers are assumed to be deterministic functions of the request."),
+ "C18": ("Coq theorems over all event lists (arrive/finish/fail/cancel, any peers, any limit incl. 0, both modes): gauge <= max, permits conserved, nobody waits while a "
+         "permit is free, everything back at quiescence, excess waits or gets 429, peers independent, FIFO progress; tied by replaying event scripts step by step on the "
+         "real InflightLimit layer around a gate-controlled service and comparing every observation with the model.",
+         "tokio's Semaphore FIFO hand-off is modelled, not proved."),
+ "C19": ("Coq theorems about governor's GCRA as used by RateLimit: refused never forwarded, positive and sufficient wait hint (also when the clock is re-read), keys independent, "
+         "window bound burst+1+replenishment for every arrival sequence and window; the stated bound burst+replenishment is refuted in Coq (idle key: burst+1 at one instant; "
+         "known finding, third-party) and proved for windows whose first arrival finds the key not fully replenished; tied by exact differential runs against governor under its "
+         "fake clock, real-time runs of the real layer, and a 200k-request hunt for the (fixed) zero wait-nanos race.",
+         "governor internals and the real clock are trusted."),
 }
 
 def main():
